@@ -67,13 +67,14 @@ func TestC05(t *testing.T) {
 		}
 	}
 	idx := 0
-	emit := func(regs []prog.Reg, ph bool) {
+	emit := func(regs []prog.Reg, ph, obs bool) {
 		idx++
 		if !run.Mine(idx) {
 			return
 		}
 		p := &prog.Program{Types: []int{idx % len(h.Drivers)}}
 		p.Cfg.PanicHandler = ph
+		p.Cfg.Obs = obs // an Observability implementation next to the panic handler: both see the panic
 		for i := range regs {
 			r := regs[i]
 			r.Class = i
@@ -90,13 +91,15 @@ func TestC05(t *testing.T) {
 		}
 	}
 	for _, a := range kinds {
-		emit([]prog.Reg{a}, true)
+		emit([]prog.Reg{a}, true, false)
+		emit([]prog.Reg{a}, true, true)
 	}
 	for _, a := range kinds {
 		for _, b := range kinds {
-			emit([]prog.Reg{a, b}, true)
+			emit([]prog.Reg{a, b}, true, false)
 			if a.PanicKind != 0 || b.PanicKind != 0 {
-				emit([]prog.Reg{a, b}, false)
+				emit([]prog.Reg{a, b}, false, false)
+				emit([]prog.Reg{a, b}, true, true)
 			}
 		}
 	}
@@ -107,6 +110,7 @@ func TestC05(t *testing.T) {
 		{MinTypes: 1, MaxTypes: 3, MinOps: 10, MaxOps: 40, Async: true, Scripts: true, Panics: true},
 		{MinTypes: 1, MaxTypes: 2, MinOps: 8, MaxOps: 25, Async: true, Panics: true, FewClasses: true, Cancels: true},
 		{MinTypes: 1, MaxTypes: 3, MinOps: 10, MaxOps: 35, Async: true, Scripts: true, Panics: true, Store: true},
+		{MinTypes: 1, MaxTypes: 3, MinOps: 10, MaxOps: 35, Async: true, Scripts: true, Panics: true, Obs: true, Hooks: true},
 	}
 	for i := 0; i < n; i++ {
 		p := prog.Gen(run.Rand(uint64(i)), h.Drivers, pf[i%len(pf)])
